@@ -25,6 +25,7 @@ type effectEngine struct {
 	allocator  map[*ssa.Function]bool // every returned pointer/slice/map is freshly allocated
 	inEdges    map[*ssa.Function][]*callgraph.Edge
 	owned      map[string]bool
+	freshBusy  map[ssa.Value]bool
 }
 
 func (c *Ctx) regionFrom(roots []*ssa.Function, stop map[*ssa.Function]bool) map[*ssa.Function]bool {
@@ -215,6 +216,19 @@ func edgeArg(ed *callgraph.Edge, pi int) ssa.Value {
 func (e *effectEngine) fresh(v ssa.Value, depth int) bool {
 	if depth == 0 {
 		return false
+	}
+	// values that flow around a loop (a local stack that is appended to and re-sliced): a value met again
+	// while it is being decided is fresh exactly if everything else that flows into the cycle is
+	if _, isPhi := v.(*ssa.Phi); isPhi {
+		if e.freshBusy == nil {
+			e.freshBusy = map[ssa.Value]bool{}
+		}
+		if e.freshBusy[v] {
+			return true
+		}
+		e.freshBusy[v] = true
+		defer delete(e.freshBusy, v)
+		depth += 2
 	}
 	switch x := v.(type) {
 	case *ssa.Alloc, *ssa.MakeSlice, *ssa.MakeMap, *ssa.MakeClosure, *ssa.MakeChan:
